@@ -20,6 +20,8 @@ pub struct Cfg {
     pub per_prod: u32,
     pub prefill: u32,
     pub fresh_wakers: bool,
+    /// (with fresh wakers) only the waker of the most recent poll wakes the consumer, which now and then polls again, with a new waker, although nobody woke it
+    pub strict_wakers: bool,
     /// Multi kinds only: listeners created BEFORE the driven ones and dropped again before anything is sent, so the driven listeners do not
     /// own the stream ids 0.. (position in the live-listener list != stream id)
     pub predropped: usize,
@@ -30,7 +32,7 @@ impl Cfg {
             .with("streams", J::i(self.streams as i64))
             .with("producers", J::Arr(self.entries.iter().map(|e| J::s(e.name())).collect()))
             .with("events_per_producer", J::i(self.per_prod as i64)).with("prefill", J::i(self.prefill as i64))
-            .with("fresh_wakers", J::Bool(self.fresh_wakers)).with("listeners_created_first_and_dropped_before_the_sends", J::i(self.predropped as i64))
+            .with("fresh_wakers", J::Bool(self.fresh_wakers)).with("only_the_waker_of_the_most_recent_poll_counts", J::Bool(self.strict_wakers)).with("listeners_created_first_and_dropped_before_the_sends", J::i(self.predropped as i64))
     }
 }
 
@@ -71,7 +73,8 @@ pub fn draw_cfg(rng: &mut Rng, only: Option<&str>, gated_only: bool) -> Cfg {
     let mut entries: Vec<Entry> = (0..nprod).map(|_| *rng.pick(&es)).collect();
     if gated_only { entries[0] = Entry::SendAsyncGated }
     let predropped = if kind.is_multi() && kind != Kind::MultiMmap && streams < m && rng.chance(1, 3) { 1 + rng.below((m - streams) as u64) as usize } else { 0 };
-    Cfg { kind, n, m, streams, entries, per_prod, prefill, fresh_wakers: rng.chance(1, 3), predropped }
+    let fresh_wakers = rng.chance(1, 3);
+    Cfg { kind, n, m, streams, entries, per_prod, prefill, fresh_wakers, strict_wakers: fresh_wakers && rng.chance(1, 2), predropped }
 }
 
 pub struct RunOut { pub violation: Option<J>, pub stuck: usize, pub parks: u32, pub wakes: u32, pub hash: u64, pub inconclusive: bool }
@@ -93,6 +96,7 @@ pub fn one_run(cfg: &Cfg, rc: &RunCfg, acc: &mut Acc) -> RunOut {
     }
     let clogs: Vec<Arc<ConsLog>> = (0..cfg.streams).map(|_| Arc::new(ConsLog::default())).collect();
     let plogs: Vec<Arc<ProdLog>> = cfg.entries.iter().map(|_| Arc::new(ProdLog::default())).collect();
+    if cfg.strict_wakers { for l in &clogs { l.only_latest_waker.store(true, SeqCst) } acc.count("runs_in_which_only_the_waker_of_the_most_recent_poll_counts", 1) }
     let mut bodies: Vec<Body> = Vec::new();
     for (s, l) in strms.into_iter().zip(clogs.iter()) { bodies.push(driven_consumer_body(s, cfg.fresh_wakers, Hold::Release, l.clone())) }
     let mut prod_ids: Vec<Vec<u64>> = Vec::new();
@@ -119,6 +123,7 @@ pub fn one_run(cfg: &Cfg, rc: &RunCfg, acc: &mut Acc) -> RunOut {
     }
     for l in &plogs { accepted.extend(l.accepted.lock().unwrap().iter()) }
     out.parks = clogs.iter().map(|l| l.parks.load(std::sync::atomic::Ordering::SeqCst)).sum();
+    if cfg.strict_wakers { acc.count("polls_nobody_asked_for(with_a_new_waker)", clogs.iter().map(|l| l.spurious_polls.load(SeqCst) as u64).sum()); acc.count("invocations_of_a_replaced_waker(ignored)", clogs.iter().map(|l| l.stale_wakes.load(SeqCst) as u64).sum()) }
     out.wakes = clogs.iter().map(|l| l.wakes.load(std::sync::atomic::Ordering::SeqCst)).sum();
     let mut problems: Vec<String> = ch.take_problems();
     for (t, p) in &rep.panics { problems.push(format!("thread t{t} panicked: {p}")) }
